@@ -1,0 +1,65 @@
+//go:build verif
+// +build verif
+
+package txpool
+
+import (
+	"fmt"
+	"sort"
+	"strings"
+
+	"github.com/LemoFoundationLtd/lemochain-core/common"
+)
+
+// VerifDump renders the guard's internal state (time buckets, block cache, tx tracer) in a
+// canonical form for the verification harness (property C04). Read-only; takes the guard lock.
+// blockID / txID map hashes to the small integers the harness uses for them.
+func (guard *TxGuard) VerifDump(blockID func(common.Hash) int, txID func(common.Hash) int) string {
+	guard.RW.Lock()
+	defer guard.RW.Unlock()
+
+	joinInts := func(l []int) string {
+		ss := make([]string, len(l))
+		for i, v := range l {
+			ss[i] = fmt.Sprintf("%d", v)
+		}
+		return strings.Join(ss, ",")
+	}
+	tb := guard.blockBuckets
+	slots := make([]string, 0)
+	for i, hashes := range tb.buckets {
+		if len(hashes) == 0 {
+			continue
+		}
+		ids := make([]int, len(hashes))
+		for j, h := range hashes {
+			ids[j] = blockID(h)
+		}
+		slots = append(slots, fmt.Sprintf("%d:%s", i, joinInts(ids)))
+	}
+	cache := make([]int, 0, len(guard.blockCache))
+	for h := range guard.blockCache {
+		cache = append(cache, blockID(h))
+	}
+	sort.Ints(cache)
+	type entry struct {
+		id     int
+		blocks []int
+	}
+	entries := make([]entry, 0, len(guard.txTracer))
+	for txHash, set := range guard.txTracer {
+		e := entry{id: txID(txHash)}
+		for h := range set {
+			e.blocks = append(e.blocks, blockID(h))
+		}
+		sort.Ints(e.blocks)
+		entries = append(entries, e)
+	}
+	sort.Slice(entries, func(i, j int) bool { return entries[i].id < entries[j].id })
+	tr := make([]string, len(entries))
+	for i, e := range entries {
+		tr[i] = fmt.Sprintf("%d>%s", e.id, joinInts(e.blocks))
+	}
+	return fmt.Sprintf("base=%d len=%d cap=%d slots=[%s] cache=[%s] trace=[%s]", tb.TimeBase, len(tb.buckets), tb.cap,
+		strings.Join(slots, " "), joinInts(cache), strings.Join(tr, " "))
+}
